@@ -201,7 +201,7 @@ TEMPLATES = {
         "{a} + {b}", "{a} * {b}", "{a} - {b}", "{a} / {b}", "{a}^{m}", "-({a} + {b})", "-({a} * {b})", "-({a} - {b})",
         "{a}{v} * {b}", "{a} * ({b}{v} * {w})", "{a} + (({b} + {v}) + {w})", "{a} * ({b} * {v})", "{a} + ({b} + {E})",
         "{a}{v} * {b}{w}^{m}", "({a}{v}^{m} * {b}{w}^{n}) * {c}{v}", "{a}{v}^{m} * {b}{w} * {u}^{n}",
-        "({v}^{m} * {a}{w}^{n}) * {b}{v}^{m}", "{a} * {b}{v}", "({a} * {b}) + {E}", "{a} = {b}", "{a} * {b} * {c}",
+        "({v}^{m} * {a}{w}^{n}) * {b}{v}^{m}", "({v}^{m} * {a}{w}^{n}) * {b}{u}^{m}", "({u} * {a}{w}) * {b}{v}", "{a} * {b}{v}", "({a} * {b}) + {E}", "{a} = {b}", "{a} * {b} * {c}",
         "{a} + {b} + {c}", "{a} * ({b}{v} * {w}) + {E}", "{a}^{m} * {v}", "{a}^{b}", "{a}^-1", "{a}^-2", "{a}^-{b}", "({a})^{b}",
     ],
     "DF": [
@@ -211,6 +211,8 @@ TEMPLATES = {
         "{a}{v} + {b}{w}", "{a}{v}^{m} + ({b}{v}^{m} + {E})", "-{v} + {a}{v}", "-{v}^{m} + {v}^{m}", "{a} + {b}{v}",
         "{a}{v} + {b}", "({E} + {a}{v}^{m}) + {b}{v}^{m}", "{a}{v}^{m} + {v}",
         "{a}{v} - {b}{v}", "{a}{v} - ({b}{v} + {E})", "({E} + {a}{v}) - {b}{v}", "{a}{v} - ({b}{v} - {E})", "{a} - ({b} + {E})",
+        # every chained arrangement again with a subtraction on top
+        "{a}{v} - ({b}{v} + {E} + {F})", "({E} + ({F} + {a}{v})) - {b}{v}", "({E} + {a}{v}) - ({b}{v} + {F})", "{a}{v}^{m} - (({b}{v}^{m} + {E}) + {F})", "({E} + {a}{v}) - ({b}{v} + {F} + {G})",
     ],
     "DM": ["{a}({b} + {c})", "({b} + {c}) * {a}", "{v} * ({E} + {F})", "{a}{v} * ({b} + {w})", "{v}({a} + {w})", "({E} + {F})({G} + {v})", "{v}^{m} * ({a} + {w})", "({a} + {v}) * {w}^{m}"],
     "MI": ["{E} / {F}", "{E} / -{F}", "{E} / -{v}", "({a} + {b}{v}) / -{v}", "{a} / -({E})", "{v} / {a}{w}", "{E} / {a}"],
@@ -494,9 +496,20 @@ def with_huge_literal(draw, base):
     return s[: m.start()] + lit + s[m.end() :]
 
 
+@st.composite
+def power_chain(draw):
+    """Runs of factors followed by two or three exponents in a row (x^2^3, 2xy^2^2, -x^y^2, 3^2^2): the grammar gives
+    a factor run one exponent (bound to its last factor); a second '^' applies to the whole unary expression."""
+    base = draw(st.sampled_from(["x", "xy", "2x", "-x", "2xy", "(x + 1)", "sgn(x)", "3", "-2", "x(y)", "0.5z", "-xy", "2(x)"]))
+    n = draw(st.integers(2, 3))
+    exps = [draw(st.sampled_from(["2", "3", "y", "-1", "0.5", "(1 + 1)", "0", "-y", "2x"])) for _ in range(n)]
+    s = base + "".join("^" + e for e in exps)
+    return s + draw(st.sampled_from(["", "", " + 1", " * y", " = 4", "z"]))
+
+
 def grammar_strings(max_nodes=10):
     base = st.one_of(expr_text(max_nodes), expr_text(max_nodes), template_text())
-    return st.one_of(base, base, decorate(base), mutated(base), token_soup, with_huge_literal(base))
+    return st.one_of(base, base, decorate(base), mutated(base), token_soup, with_huge_literal(base), power_chain())
 
 
 # ---------------------------------------------------------------- G-assign
